@@ -94,13 +94,15 @@ Proof. unfold parse_bedgraph_line. destruct (split_on TAB (trim_end line)). refl
    contains the separator ---------- *)
 Fixpoint join (sep : N) (first : list N) (more : list (list N)) : list N :=
   match more with [] => first | p :: r => first ++ sep :: join sep p r end.
+Lemma frev_rev {X} (l : list X) : frev l = rev l.
+Proof. unfold frev. symmetry. apply rev_alt. Qed.
 Lemma split_aux_spec sep : forall l cur,
   join sep (fst (split_aux sep cur l)) (snd (split_aux sep cur l)) = rev cur ++ l
   /\ (forallb (fun b => negb (b =? sep)) cur = true ->
       Forall (fun p => forallb (fun b => negb (b =? sep)) p = true)
              (fst (split_aux sep cur l) :: snd (split_aux sep cur l))).
 Proof.
-  induction l as [|b r IH]; intros cur; cbn [split_aux].
+  induction l as [|b r IH]; intros cur; cbn [split_aux]; rewrite ?frev_rev.
   - cbn [fst snd join]. split; [now rewrite app_nil_r|].
     intros H. constructor; [|constructor]. rewrite forallb_forall in *. intros x Hx. apply H. now apply in_rev.
   - destruct (b =? sep) eqn:E.
